@@ -77,7 +77,11 @@ func verifRowFields(row *BrokerRow) (int64, uint64) {
 // C16 (write window): a row is dropped exactly when it lies outside [now-behind, now+ahead].
 func verifC16Evict() {
 	verifRowSpecs = nil
-	n := 1 + verifChoose("rows", 3)
+	maxRows := 3
+	if verifThorough() {
+		maxRows = 8
+	}
+	n := 1 + verifChoose("rows", maxRows)
 	behind := verifRange("behind", 0, 7*86400000)
 	ahead := verifRange("ahead", 0, 7*86400000)
 	var now int64
@@ -115,8 +119,12 @@ func verifC16Evict() {
 func verifC16Partition() {
 	verifRowSpecs = nil
 	time.Local = time.UTC
-	n := 1 + verifChoose("rows", 3)
-	shards := int32(1 + verifChoose("shards", 4))
+	maxRows, maxShards := 3, 4
+	if verifThorough() {
+		maxRows, maxShards = 5, 8
+	}
+	n := 1 + verifChoose("rows", maxRows)
+	shards := int32(1 + verifChoose("shards", maxShards))
 	// 2024-03-10T00:00:00Z .. +3h: up to three one-hour families of a day-type interval
 	const base = 1710028800000
 	batch := newBrokerBatchRows()
